@@ -261,7 +261,13 @@ func NewClassifier(threshold float64) *Classifier {
 // It is an invariant of the classifier that calling Match(Normalize(in)) will
 // return the same results as Match(in).
 func (c *Classifier) Normalize(in []byte) []byte {
-	doc, err := tokenizeStream(bytes.NewReader(in), false, c.dict, true)
+	// Normalize has to print every word of the input, so the words must be
+	// recorded in a dictionary. Use a private one: adding them to the
+	// classifier's dictionary would turn words that are unknown to the corpus
+	// into known ones, and later Match calls treat known and unknown words
+	// differently (and would race with this write).
+	dict := newDictionary()
+	doc, err := tokenizeStream(bytes.NewReader(in), false, dict, true)
 	if err != nil {
 		panic("should not be reachable, since bytes.NewReader().Read() should never fail")
 	}
@@ -272,7 +278,7 @@ func (c *Classifier) Normalize(in []byte) []byte {
 	case 0:
 		return nil
 	case 1:
-		buf.WriteString(c.dict.getWord(doc.Tokens[0].ID))
+		buf.WriteString(dict.getWord(doc.Tokens[0].ID))
 		return buf.Bytes()
 	}
 
@@ -280,7 +286,7 @@ func (c *Classifier) Normalize(in []byte) []byte {
 	// The first token needs no separator. If the first line holds no words the
 	// first token is an EOL token; it is accounted for by the line change of the
 	// token that follows it, so it must not be written out itself.
-	if first := c.dict.getWord(doc.Tokens[0].ID); first != eol {
+	if first := dict.getWord(doc.Tokens[0].ID); first != eol {
 		buf.WriteString(first)
 	}
 	for _, t := range doc.Tokens[1:] {
@@ -293,7 +299,7 @@ func (c *Classifier) Normalize(in []byte) []byte {
 		}
 
 		// Only write tokens that aren't EOL
-		txt := c.dict.getWord(t.ID)
+		txt := dict.getWord(t.ID)
 
 		if txt != eol {
 			// Only put a space between tokens if the previous token was on the same
